@@ -15,9 +15,14 @@
    interleavings (RStep / CStep / finalise of Model/C02_Scheduler.v) but shows in a run only if
    another goroutine is scheduled between those two statements, which the bubble never forces.
 
+   [Burst b os]: several goroutines released together operate on one job name of one scheduler
+   (Model/C02_Burst.v): real parallelism, repeated; [os] are the distinct observations.  [agree]:
+   some interleaving of the lanes makes the table model return exactly the observed codes, run
+   counts and table contents; [P_b]: the counting laws of the property on the observation alone.
+
    [P_b] is the property itself, evaluated on the script and the OBSERVED outcome only. *)
 From Coq Require Import String.
-From Verif Require Export Lib.Base Lib.Reach Model.C02_Scheduler Model.C02_Script Model.C02_TableOps.
+From Verif Require Export Lib.Base Lib.Reach Model.C02_Scheduler Model.C02_Script Model.C02_TableOps Model.C02_Burst.
 
 Record obs := {
   ob_out : outcome;
@@ -31,8 +36,26 @@ Record obs := {
   ob_count : N          (* repetitions that showed this outcome *)
 }.
 
+(* one observation of a burst; the runs are per ScheduleJob operation, in the order of [number] *)
+Record bobs := {
+  bo_pre : list code;           (* codes of the sequential operations *)
+  bo_lanes : list (list code);  (* codes per lane *)
+  bo_exists1 : bool;            (* JobExists at rest after the burst *)
+  bo_runs1 : list N;
+  bo_follow : option code;      (* the follow-up CancelJob / RunJob *)
+  bo_exists2 : bool;
+  bo_runs2 : list N;
+  bo_exists3 : bool;            (* after the jobs' time *)
+  bo_runs3 : list N;
+  bo_lists_ok : bool;           (* at all three points ListJobs = the other names + (the name iff JobExists), no other job ran *)
+  bo_reuse : code;              (* ScheduleJob of the name at the very end *)
+  bo_bad : bool;                (* a panic, or a call that never returned *)
+  bo_count : N
+}.
+
 Inductive body :=
 | Timed (sc : script) (os : list obs)
+| Burst (b : burst) (os : list bobs)
 | Tabled (ops : list top) (outs : list tout) (runs : list (N * N))
 | Skeleton (fn : string) (toks : list string).
 
@@ -85,11 +108,50 @@ Definition expected_skeleton (fn : string) : list string :=
     ["job.stateLock.Lock()"; "job.finalised.Store(true)"; "close(job.cancelCh)"; "close(job.runCh)"; "job.stateLock.Unlock()"]%string
   else [].
 
+(* a burst: the sequential operations return what the model returns; some interleaving of the
+   lanes returns the observed codes and ends in a state with the observed table entry and run
+   counts; from there the follow-up and the passing of the jobs' time give what was observed *)
+Definition snapshot_ok (s : bstate) (n : N) (e : bool) (runs : list N) : bool :=
+  Bool.eqb (held s) e && list_eqb N.eqb runs (runs_upto s (N.to_nat n)).
+
+Definition opt_code_eqb (a b : option code) : bool :=
+  match a, b with
+  | None, None => true
+  | Some x, Some y => code_eqb x y
+  | _, _ => false
+  end.
+
+Definition burst_agree (b : burst) (o : bobs) : bool :=
+  negb (bo_bad o) && bo_lists_ok o &&
+  let per := bu_periodic b in
+  let '(pre, n1) := number 0 (bu_pre b) in
+  let '(lanes, n) := number_lanes n1 (bu_lanes b) in
+  let '(s0, pre_codes) := b_run per bs_init pre in
+  list_eqb code_eqb (bo_pre o) pre_codes &&
+  match zip_lanes lanes (bo_lanes o) with
+  | None => false
+  | Some zl =>
+      lin (Datatypes.S (ops_count zl)) per s0 zl
+          (fun s1 =>
+             snapshot_ok s1 n (bo_exists1 o) (bo_runs1 o) &&
+             let '(s2, fc) := match bu_follow b with
+                              | Some op => let '(s2, c) := b_step per s1 op 0 in (s2, Some c)
+                              | None => (s1, None)
+                              end in
+             opt_code_eqb (bo_follow o) fc &&
+             snapshot_ok s2 n (bo_exists2 o) (bo_runs2 o) &&
+             let s3 := b_fire s2 in
+             snapshot_ok s3 n (bo_exists3 o) (bo_runs3 o) &&
+             code_eqb (bo_reuse o) (if held s3 then ErrJobAlreadyExists else Nil))
+  end.
+
 Definition agree (c : case) : bool :=
   match c_body c with
   | Timed sc os =>
       let ts := finals sc in
       match os with [] => false | _ => forallb (fun ob => obs_match ts ob && dup_ok ob) os end
+  | Burst b os =>
+      match os with [] => false | _ => forallb (burst_agree b) os end
   | Tabled ops outs runs =>
       let '(s, outs') := tb_run tb_init ops in
       list_eqb tout_eqb outs outs' && list_eqb (prod_eqb N.eqb N.eqb) runs (tb_final_runs s)
@@ -279,9 +341,88 @@ Fixpoint tspec (live : list (name * (N * bool))) (next : N) (started : list N)
   | _, _ => false
   end.
 
+(* --- bursts: the counting laws of the property, on the observation alone --------------------------
+   The name starts free.  A = accepted ScheduleJob calls, C = CancelJob calls that returned nil,
+   R = RunJob calls that returned nil, E = 1 if the name is listed when the burst has come to rest.
+   "duplicate rejected / a name is held by at most one job": every accepted job is either still the
+   one listed or was claimed by exactly one successful call: one-off A = C + R + E; periodic (RunJob
+   does not release the name) A = C + E.  "an early-run request that reports success means the job
+   runs", "never twice": the runs are the successful run requests, each one-off job at most once, a
+   refused ScheduleJob never runs.  "a job cancelled clearly before its time never runs", "not
+   cancelled: runs exactly once": when the time has passed the only additional run is that of the
+   job then listed, and the name is free again. *)
+Definition codes_with (ops : list bop) (cs : list code) : list (bop * code) := combine ops cs.
+
+Definition count_oc (l : list (bop * code)) (o : bop) (c : code) : N :=
+  len (filter (fun x => bop_eqb (fst x) o && code_eqb (snd x) c) l).
+
+Definition sum_N (l : list N) : N := fold_right N.add 0 l.
+
+Fixpoint pointwise_le (a b : list N) : bool :=
+  match a, b with
+  | [], [] => true
+  | x :: a', y :: b' => (x <=? y) && pointwise_le a' b'
+  | _, _ => false
+  end.
+
+Definition code_allowed (x : bop * code) : bool :=
+  match x with
+  | (BoSched, Nil) | (BoSched, ErrJobAlreadyExists) => true
+  | (BoCancel, Nil) | (BoCancel, ErrNoSuchJob) => true
+  | (BoRun, Nil) | (BoRun, ErrNoSuchJob) => true
+  | (BoCtx, Nil) | (BoRelease _, Nil) => true
+  | _ => false
+  end.
+
+Definition shape_ok (b : burst) (o : bobs) : bool :=
+  (length (bo_pre o) =? length (bu_pre b))%nat
+  && list_eqb Nat.eqb (map (@length code) (bo_lanes o)) (map (@length bop) (bu_lanes b)).
+
+Definition bN' (b : bool) : N := if b then 1 else 0.
+
+Definition P_burst (b : burst) (o : bobs) : bool :=
+  let per := bu_periodic b in
+  let ops := bu_pre b ++ concat (bu_lanes b) in
+  let cs := bo_pre o ++ concat (bo_lanes o) in
+  let oc := codes_with ops cs in
+  let A := count_oc oc BoSched Nil in
+  let C := count_oc oc BoCancel Nil in
+  let R := count_oc oc BoRun Nil in
+  let E1 := bN' (bo_exists1 o) in
+  let sched_codes := map snd (filter (fun x => bop_eqb (fst x) BoSched) oc) in
+  let refused_never_run (runs : list N) :=
+      forallb (fun x => code_eqb (fst x) Nil || (snd x =? 0)) (combine sched_codes runs) in
+  let at_most_once (runs : list N) := per || forallb (fun r => r <=? 1) runs in
+  let found := if bo_exists1 o then Nil else ErrNoSuchJob in
+  negb (bo_bad o) && bo_lists_ok o && shape_ok b o && forallb code_allowed oc
+  && (len (bo_runs1 o) =? len sched_codes) && (len (bo_runs2 o) =? len sched_codes) && (len (bo_runs3 o) =? len sched_codes)
+  (* the name is held by at most one job (when the context of the job that held the name before the
+     burst is cancelled during the burst, that one job may have left the table by itself) *)
+  && (C + (if per then 0 else R) + E1 <=? A)
+  && (A <=? C + (if per then 0 else R) + E1 + (if existsb (fun x => bop_eqb (fst x) BoCtx) oc then 1 else 0))
+  (* at rest after the burst: the runs are the successful run requests *)
+  && (sum_N (bo_runs1 o) =? R) && at_most_once (bo_runs1 o) && refused_never_run (bo_runs1 o)
+  (* the follow-up, issued at rest *)
+  && match bu_follow b, bo_follow o with
+     | None, None => Bool.eqb (bo_exists2 o) (bo_exists1 o) && list_eqb N.eqb (bo_runs2 o) (bo_runs1 o)
+     | Some BoCancel, Some c =>
+         code_eqb c found && negb (bo_exists2 o) && list_eqb N.eqb (bo_runs2 o) (bo_runs1 o)
+     | Some BoRun, Some c =>
+         code_eqb c found && Bool.eqb (bo_exists2 o) (per && bo_exists1 o)
+         && (sum_N (bo_runs2 o) =? R + E1) && pointwise_le (bo_runs1 o) (bo_runs2 o)
+     | _, _ => false
+     end
+  && at_most_once (bo_runs2 o) && refused_never_run (bo_runs2 o)
+  (* the jobs' time has passed: the job then listed ran once more, nothing else did; the name is free *)
+  && negb (bo_exists3 o)
+  && (sum_N (bo_runs3 o) =? sum_N (bo_runs2 o) + bN' (bo_exists2 o)) && pointwise_le (bo_runs2 o) (bo_runs3 o)
+  && at_most_once (bo_runs3 o) && refused_never_run (bo_runs3 o)
+  && code_eqb (bo_reuse o) Nil.
+
 Definition P_b (c : case) : bool :=
   match c_body c with
   | Timed sc os => forallb (P_timed sc) os
+  | Burst b os => forallb (P_burst b) os
   | Tabled ops outs runs => tspec [] 0 [] ops outs runs
   | Skeleton _ _ => true      (* no clause of the property speaks of the source text *)
   end.
